@@ -52,17 +52,32 @@ func GenPause(seed int64, idx int, tier string) *Plan {
 			c.Kind = "deploy"
 			c.Hosts = []string{"a.test"}
 			c.Targets = newGroup(1 + rng.Intn(2))
-			c.DeployTimeoutMs = 2500
+			c.DeployTimeoutMs = 3500
 			c.DrainTimeoutMs = []int{500, 1000, 2000}[rng.Intn(3)]
+			if rng.Intn(2) == 0 {
+				// takes a while to become healthy: other commands may overlap this deploy
+				p.Targets[c.Targets[0]] = probeScriptAfterFailures(rng, 1+rng.Intn(2))
+			}
 		}
 		if rng.Intn(2) == 0 {
 			c.WaitMs = offGrid(rng, 10, 3000)
 		}
 		lane = append(lane, c)
 	}
-	p.Lanes = [][]Cmd{lane}
-	// a second operator lane that overlaps commands on the same service (rare)
-	if rng.Intn(8) == 0 {
+	if rng.Intn(6) == 0 {
+		// a pause-type command lands while a redeploy is still waiting for its new targets
+		slow := newGroup(1)
+		p.Targets[slow[0]] = probeScriptAfterFailures(rng, 2)
+		lane = append(lane[:1], append([]Cmd{{ID: "d2", Kind: "deploy", Svc: "A", Hosts: []string{"a.test"}, Targets: slow,
+			DeployTimeoutMs: 3500, DrainTimeoutMs: 500}}, lane[1:]...)...)
+		x := Cmd{ID: "x0", Svc: "A", After: "c1", WaitMs: offGrid(rng, 200, 1700), DrainTimeoutMs: 500, MaxPauseMs: 2500, Msg: "held"}
+		x.Kind = []string{"stop", "pause"}[rng.Intn(2)]
+		p.Lanes = [][]Cmd{lane, {x}}
+	} else {
+		p.Lanes = [][]Cmd{lane}
+	}
+	// a second operator lane that overlaps commands on the same service
+	if len(p.Lanes) == 1 && rng.Intn(4) == 0 {
 		c := Cmd{ID: "x1", Svc: "A", After: "c1", WaitMs: offGrid(rng, 10, 4000)}
 		switch rng.Intn(3) {
 		case 0:
@@ -224,5 +239,71 @@ func GenRollout(seed int64, idx int, tier string) *Plan {
 		}
 		p.Clients = append(p.Clients, cl)
 	}
+	return p
+}
+
+// GenOwn: several services race for overlapping host / path bindings from
+// concurrent operator lanes (deploy, redeploy to other hosts, remove, rollout
+// deploy), so that the check-and-set of an install is exercised under real
+// overlap. Serves C05 (ownership) and C06/C18.
+func GenOwn(seed int64, idx int, tier string) *Plan {
+	rng := rand.New(rand.NewSource(seed*5000011 + int64(idx)))
+	p := &Plan{Family: "own", Seed: seed*5000011 + int64(idx), Targets: map[string]TargetScript{}, QuantumMs: 100, SettleMs: 6000, Burst: true}
+	p.Urgent = rng.Intn(3) > 0
+	pickSched(rng, p)
+	hostsets := [][]string{{"h.test"}, {"h.test", "g.test"}, {"g.test"}, {"*.test"}, {}}
+	pathsets := [][]string{{}, {"/api"}, {"/", "/api"}}
+	tn, cn := 0, 0
+	names := []string{"A", "B", "C"}
+	nLanes := 2 + rng.Intn(2)
+	for l := 0; l < nLanes; l++ {
+		var lane []Cmd
+		n := 1 + rng.Intn(3)
+		for i := 0; i < n; i++ {
+			cn++
+			c := Cmd{ID: fmt.Sprintf("c%d", cn), Svc: names[rng.Intn(len(names))]}
+			if l < 3 && i == 0 {
+				c.Svc = names[l] // each lane starts with its own service
+			}
+			switch x := rng.Intn(10); {
+			case x < 7 || i == 0:
+				c.Kind = "deploy"
+				c.Hosts = hostsets[rng.Intn(len(hostsets))]
+				if rng.Intn(2) == 0 {
+					c.Hosts = hostsets[0] // make collisions likely
+				}
+				c.Paths = pathsets[rng.Intn(len(pathsets))]
+				c.DeployTimeoutMs, c.DrainTimeoutMs = 2500, 500
+				tn++
+				t := fmt.Sprintf("t%d", tn)
+				c.Targets = []string{t}
+				if rng.Intn(3) == 0 {
+					p.Targets[t] = probeScriptAfterFailures(rng, 1+rng.Intn(2))
+				} else {
+					p.Targets[t] = probeScriptHealthy(rng)
+				}
+			case x < 8:
+				c.Kind = "remove"
+			default:
+				c.Kind = "rollout_deploy"
+				c.DeployTimeoutMs, c.DrainTimeoutMs = 2500, 500
+				tn++
+				t := fmt.Sprintf("t%d", tn)
+				c.Targets = []string{t}
+				p.Targets[t] = probeScriptAfterFailures(rng, rng.Intn(3))
+			}
+			if rng.Intn(3) == 0 {
+				c.WaitMs = offGrid(rng, 10, 1500)
+			}
+			lane = append(lane, c)
+		}
+		p.Lanes = append(p.Lanes, lane)
+	}
+	// a few requests so that traffic overlaps the commands
+	var cl []Req
+	for i := 0; i < 3; i++ {
+		cl = append(cl, Req{ID: fmt.Sprintf("r%d", i+1), Svc: "?", Host: "h.test", Path: []string{"/", "/api/x"}[rng.Intn(2)], Kind: "plain", WaitMs: offGrid(rng, 10, 2000)})
+	}
+	p.Clients = [][]Req{cl}
 	return p
 }
